@@ -701,3 +701,18 @@ def syncmap_range(ex, args, name):
         if not ex.branch(ex.call_value(args[1], [k, v])):
             break
     return None
+
+
+@intr('strings.IndexFunc', 'strings.ContainsFunc')
+def strings_indexfunc(ex, args, name):
+    s, f = args
+    if isinstance(s, str):
+        codes = [ord(c) for c in s]
+    elif hasattr(s, 'codes'):
+        codes = s.codes
+    else:
+        raise Unsupported(name + ' on a symbolic string')
+    for i, c in enumerate(codes):
+        if ex.branch(ex.call_value(f, [c])):
+            return i if name.endswith('IndexFunc') else True
+    return -1 if name.endswith('IndexFunc') else False
